@@ -298,7 +298,7 @@ SRows == LET ss == SetToSeq({-200 + 157 * i : i \in 0..13}) IN
 SectionB == [id |-> Id("section"), labels |-> Labels("section"),
              steps |-> << [op |-> "create", h |-> 1, wb |-> Doc, expect |-> "any"],
                           [op |-> "qtable", h |-> 1, dim |-> 3, sph |-> sph, props |-> SectionProps, may_throw |-> TRUE,
-                           also2d |-> [x |-> 4, z |-> 5, rel |-> Dec(1, -9), abs |-> Dec(1, -9)], rows |-> SRows] >>]
+                           also2d |-> [x |-> 4, z |-> 5, rel |-> Dec(1, -7), abs |-> Dec(1, -7)], rows |-> SRows] >>]
 
 (* the same along the cross section of the document written against the second frame: the section's end points are moved with
    everything else (on the sphere across or beyond the +-180 meridian, possibly only one of the two) *)
@@ -314,7 +314,7 @@ SectionMovedB == LET f == Frames(sph)[frame] IN
                  [id |-> Id("section-moved"), labels |-> Labels("section"),
                   steps |-> << [op |-> "create", h |-> 1, wb |-> DocF(f), expect |-> "any"],
                                [op |-> "qtable", h |-> 1, dim |-> 3, sph |-> sph, props |-> SectionProps, may_throw |-> TRUE,
-                                also2d |-> [x |-> 4, z |-> 5, rel |-> Dec(1, -9), abs |-> Dec(1, -9)], rows |-> SMRows(f)] >>]
+                                also2d |-> [x |-> 4, z |-> 5, rel |-> Dec(1, -7), abs |-> Dec(1, -7)], rows |-> SMRows(f)] >>]
 
 Emit == ~done \/ (PrintT(<<"B", ToJson(SectionMovedB)>>) /\ PrintT(<<"B", ToJson(SectionB)>>) /\ PrintT(<<"J", ToJson(ThreadJob)>>) /\ PrintT(<<"B", ToJson(FiniteB)>>) /\ PrintT(<<"B", ToJson(PurityB)>>) /\ PrintT(<<"B", ToJson(CullB)>>)
                   /\ PrintT(<<"B", ToJson(WrapperB)>>) /\ PrintT(<<"B", ToJson(MotionB)>>))
